@@ -274,6 +274,27 @@ var panicFuncRe = regexp.MustCompile(`(?m)^(github\.com/gokrazy/rsync/[^\s(]+(?:
 // worker's stderr tail.
 func classifyCrash(stderr string, exitErr error) (kind, fn, msg string) {
 	kind = "exit"
+	if r := strings.Index(stderr, "WARNING: DATA RACE"); r >= 0 {
+		rest := stderr[r:]
+		kind, msg = "race", "WARNING: DATA RACE"
+		for _, line := range strings.Split(rest, "\n") {
+			line = strings.TrimSpace(line)
+			if strings.HasPrefix(line, "github.com/gokrazy/rsync/") && !strings.Contains(line, "/verifharness") {
+				fn = strings.TrimPrefix(line, "github.com/gokrazy/rsync/")
+				if p := strings.LastIndex(fn, "("); p > 0 {
+					fn = fn[:p]
+				}
+				break
+			}
+		}
+		if fn == "" {
+			fn = "harness"
+		}
+		if len(rest) > 3000 {
+			rest = rest[:3000]
+		}
+		return kind, fn, msg + "\n" + rest
+	}
 	i := strings.LastIndex(stderr, "panic: ")
 	j := strings.LastIndex(stderr, "fatal error: ")
 	at := -1
@@ -332,7 +353,7 @@ func (r *ringBuf) String() string { r.mu.Lock(); defer r.mu.Unlock(); return str
 func runWorker(bin string, spec workerSpec, a *agg, deadline time.Time, onN func(int)) (crashedAt int, done bool, stderrTail string, err error) {
 	sj, _ := json.Marshal(spec)
 	cmd := exec.Command(bin, "-test.run=^TestEntry$", "-test.timeout=0", "-test.count=1")
-	cmd.Env = append(os.Environ(), "VCHECK_WORKER="+string(sj))
+	cmd.Env = append(os.Environ(), "VCHECK_WORKER="+string(sj), "GORACE=halt_on_error=1")
 	if spec.Uid > 0 {
 		pub := filepath.Join(Scratch(), fmt.Sprintf("uid%d", spec.Uid))
 		os.MkdirAll(pub, 0o777)
